@@ -6,6 +6,7 @@ LEVEL = 'proof'
 
 
 def run(rep):
+    enginep.unify_deductive(rep)      # facts are matched by unification: the unify family against su (C02's contracts)
     enginep.engine_deductive(rep, enginep.COPY_FUNS + ['engine.YP.assert_fact', 'engine.get_value', 'engine.Variable.get_value',
                                                          'engine.Functor.get_value', 'engine.Atom.get_value'])
     q = rep.tier == 'quick'
